@@ -12,6 +12,7 @@
  *   UL <pwr> <hexbits>   an uplink channel is active: every RTS.ind is answered, from inside
  *                    the callback as trxcon's scheduler does, with a BURST.req carrying these
  *                    bits for the requested frame; "UL 0" (no bits) switches it off
+ *   FAILSEND <errno> <n>   the next n send() calls on the TRXD socket fail with that errno
  *   CLOSE            trx_if_close()
  * Every output line carries the interface status after the operation:
  *   st (FSM state), term (terminated), q (queued commands), timer (armed),
@@ -36,8 +37,24 @@
 #include <osmocom/bb/trxcon/trx_if.h>
 
 static int peer_fd[2] = { -1, -1 };
+
+/* FAILSEND <errno> <count>: the next <count> send() calls of trx_if.c on the TRXD socket fail with
+ * <errno> (a full socket buffer, a peer that is not there yet); linked with --wrap=send */
+static int fail_send_errno, fail_send_count;
+static int trxd_fd(void);
+ssize_t __real_send(int fd, const void *buf, size_t n, int flags);
+ssize_t __wrap_send(int fd, const void *buf, size_t n, int flags)
+{
+	if (fail_send_count > 0 && fd >= 0 && fd == trxd_fd()) {
+		fail_send_count--;
+		errno = fail_send_errno;
+		return -1;
+	}
+	return __real_send(fd, buf, n, flags);
+}
 static int n_socks;
 static struct trx_instance *trx;
+static int trxd_fd(void) { return trx ? trx->trx_ofd_data.fd : -1; }
 static struct osmo_fsm_inst *the_fi;
 static struct osmo_fsm *the_fsm;
 static int timer_armed;
@@ -333,6 +350,11 @@ int main(void)
 			ul_n = parse_hex(e, ul_bits, sizeof(ul_bits));
 			for (k = 0; k < ul_n; k++) ul_bits[k] &= 1;
 			status("UL", 0);
+		} else if (!strncmp(p, "FAILSEND ", 9)) {
+			char *e = p + 9;
+			fail_send_errno = strtol(e, &e, 10);
+			fail_send_count = strtol(e, &e, 10);
+			status("FAILSEND", 0);
 		} else if (!strncmp(p, "CLOSE", 5)) {
 			trx_if_close(trx);
 			status("CLOSE", 0);
